@@ -150,7 +150,7 @@ def bin_run(exe, wdir, files, args, wfault=None, timeout=20):
         for n in names:
             before.add(os.path.relpath(os.path.join(root, n), wdir))
     try:
-        p = subprocess.run([exe] + args[1:], cwd=wdir, stdout=subprocess.PIPE, stderr=subprocess.PIPE, timeout=timeout)
+        p = common.patient_run([exe] + args[1:], timeout, cwd=wdir, stdout=subprocess.PIPE, stderr=subprocess.PIPE)
         code, sig = p.returncode, 0
         if code < 0:
             sig, code = -code, 0
